@@ -65,6 +65,13 @@ pub fn make_history(r: &mut Sm, idx: usize) -> History {
     } else {
         None
     };
+    // a first query whose start already satisfies the goal (answered at once, or almost), then
+    // an ordinary problem on the same planner object
+    let mut ops = ops;
+    if planner != PKind::Prm && r.bool(0.08) {
+        p1.put_goal_on_start();
+        ops = vec![Op::Setup(0), Op::Solve(n(r)), Op::Setup(1), Op::Solve(n(r)), Op::Solve(n(r))];
+    }
     // another query towards the same goal: the second problem shares the first one's goal
     // (the history runner then hands over the very same goal and space objects)
     if r.bool(0.25) {
